@@ -1320,6 +1320,9 @@ class SpaceManager(SharedSpaceOperations):
 
     def rename_space(self, space, name):
 
+        if not is_valid_name(name):
+            raise ValueError("Invalid name '%s'." % name)
+
         # Check name does not exit already
         parent = space.parent
         if not self._can_add(
